@@ -3,7 +3,10 @@ package main
 import (
 	"context"
 	"fmt"
+	"net"
+	"net/http"
 	"sync"
+	"sync/atomic"
 	"time"
 
 	goat "github.com/avos-io/goat"
@@ -205,6 +208,53 @@ func c15APIUse(r *Run) {
 		<-served
 		r.Eval(fmt.Sprintf("apiuse/dialattach/%d", i), true)
 		r.Count("apiuse.dialattach")
+	}
+	// the HTTP transport under a client connection: several calls are writing when the peer dies (all
+	// their POSTs are cut off together), so several Writes of one connection fail concurrently while its
+	// reader is woken
+	for i, n := 0, r.Scale(6, 40); i < n; i++ {
+		r.Progress("apiuse.httpfail", i)
+		const callers = 4
+		var inflight atomic.Int32
+		allIn := make(chan struct{})
+		var once sync.Once
+		ln, err := net.Listen("tcp", "127.0.0.1:0")
+		if err != nil {
+			r.Count("apiuse.httpfail.no_listener")
+			break
+		}
+		hs := &http.Server{Handler: http.HandlerFunc(func(w http.ResponseWriter, req *http.Request) {
+			if inflight.Add(1) >= callers {
+				once.Do(func() { close(allIn) })
+			}
+			select {
+			case <-allIn:
+			case <-time.After(300 * time.Millisecond):
+			}
+			if hj, ok := w.(http.Hijacker); ok {
+				if c, _, err := hj.Hijack(); err == nil {
+					c.Close()
+				}
+			}
+		})}
+		go hs.Serve(ln)
+		goh := goat.NewGoatOverHttp(func(string, goat.RpcReadWriter) {}, func(s string) (string, error) { return s, nil })
+		cc := goat.NewClientConn(goh.NewConnection(ln.Addr().String()), "c", "srv")
+		var wg sync.WaitGroup
+		for k := 0; k < callers; k++ {
+			wg.Add(1)
+			go func(k int) {
+				defer wg.Done()
+				ctx, cancel := context.WithTimeout(context.Background(), 2*time.Second)
+				defer cancel()
+				callUnary(ctx, cc, []byte(fmt.Sprintf("hf-%d-%d", i, k)))
+			}(k)
+		}
+		wg.Wait()
+		cc.Close()
+		hs.Close()
+		r.Eval(fmt.Sprintf("apiuse/httpfail/%d", i), true)
+		r.Count("apiuse.httpfail")
 	}
 	// the demultiplexer: keys are cancelled (Demux.Cancel, from another goroutine — Run blocks) while the
 	// run loop is handing over envelopes of those very keys; readers come and go
